@@ -754,6 +754,209 @@ fn run_huge(ctx: &mut Ctx) {
     }
 }
 
+// ---- gap_ families: entry points no other family reaches (default constructors, shared-pool constructor, partially consumed
+// merge sources, SIMD compare / min primitives, merge_all into a non-empty sink, reused SetOperations, trait default sort) ----
+mod gapx {
+    pub use zipora::algorithms::cache_oblivious::VanEmdeBoas;
+    pub use zipora::algorithms::multiway_merge::MergeSource;
+    pub use zipora::algorithms::radix_sort::{CpuFeatures as RadixCpuFeatures, DataCharacteristics as RadixData};
+    pub use zipora::algorithms::tournament_tree::TournamentNode;
+    pub use zipora::memory::{SecureMemoryPool, SecurePoolConfig};
+}
+fn gap_i32s(c: &mut Case, n: usize) -> Vec<i32> {
+    let mode = c.rng.below(6); let base = c.rng.next() as i32;
+    (0..n).map(|_| match mode {
+        0 => c.rng.next() as i32,
+        1 => c.rng.below(5) as i32 - 2,
+        2 => *c.rng.pick(&[i32::MIN, i32::MAX, 0, -1, 1, i32::MIN + 1, i32::MAX - 1]),
+        3 => base,
+        4 => base.wrapping_add(c.rng.below(3) as i32),
+        _ => if c.rng.chance(1, 4) { *c.rng.pick(&[i32::MIN, i32::MAX, 0, -1]) } else { c.rng.next() as i32 },
+    }).collect()
+}
+fn gap_le32(v: &[i32]) -> Vec<u8> { v.iter().flat_map(|x| x.to_le_bytes()).collect() }
+fn gap_simd_cfg(c: &mut Case) -> SimdConfig { SimdConfig { use_avx2: c.rng.chance(3, 4), use_bmi2: c.rng.bool(), min_vector_size: *c.rng.pick(&[0usize, 1, 4, 8, 8, 9, 16, 64]), prefetch_distance: c.rng.usize_below(5) } }
+fn gap_check_min(c: &mut Case, what: &str, v: &[i32], g: Option<(usize, i32)>) -> Res {
+    c.ev(1);
+    match (g, v.iter().copied().min()) {
+        (None, None) => Ok(()),
+        (Some((i, m)), Some(e)) => {
+            ensure!(m == e, "min_wrong", "{what}: minimum {m} reported, true minimum {e}; values {}", short(v));
+            ensure!(i < v.len() && v[i] == m, "min_index_wrong", "{what}: index {i} does not hold the reported minimum {m}; values {}", short(v));
+            // which of several equal minima is reported is not documented
+            let first = v.iter().position(|&x| x == e).unwrap(); c.note(if i == first { "min_index_first" } else { "min_index_later" }, 1); Ok(()) }
+        (g, e) => fail("min_wrong", format!("{what}: got {g:?}, true minimum {e:?}; values {}", short(v))),
+    }
+}
+/// one operation on a caller-owned (reused) SetOperations object, against the counting oracle
+fn gap_kway_apply(c: &mut Case, so: &mut SetOperations, op: u64, ws: &Vec<Vec<u32>>, step: usize) -> Res {
+    let k = ws.len();
+    let its = |ws: &Vec<Vec<u32>>| -> Vec<std::vec::IntoIter<u32>> { ws.iter().cloned().map(|w| w.into_iter()).collect() };
+    let mut cnt: BTreeMap<u32, Vec<usize>> = BTreeMap::new(); for (i, w) in ws.iter().enumerate() { for &x in w { cnt.entry(x).or_insert_with(|| vec![0; k])[i] += 1; } }
+    match op {
+        0 => { let e: Vec<u32> = if k == 0 { vec![] } else { cnt.iter().flat_map(|(&v, cs)| std::iter::repeat(v).take(*cs.iter().min().unwrap())).collect() };
+            let g = libs!("SetOperations::intersection (reused object)", so.intersection(its(ws))); check_set(c, "intersection", &format!("step {step}: k-way intersection on a reused SetOperations"), &e, &g) }
+        1 => { let e: Vec<u32> = cnt.keys().copied().collect(); let g = libs!("SetOperations::union (reused object)", so.union(its(ws))); check_set(c, "union", &format!("step {step}: k-way union on a reused SetOperations"), &e, &g) }
+        2 => { let m = 1 + (step as u32 % 3); let mut e: Vec<u32> = ws.iter().flatten().copied().filter(|x| x % m == 0).collect(); e.sort();
+            let g = libs!("SetOperations::filter_merge (reused object)", so.filter_merge(its(ws), move |x: &u32| x % m == 0)); check_merge(c, &format!("step {step}: filter_merge on a reused SetOperations"), &e, &g) }
+        _ => { let g = libs!("SetOperations::count_frequencies (reused object)", so.count_frequencies(its(ws))); let g: BTreeMap<u32, usize> = g.into_iter().collect(); let e: BTreeMap<u32, usize> = cnt.iter().map(|(&v, cs)| (v, cs.iter().sum())).collect(); c.ev(e.len().max(1) as u64);
+            ensure!(g == e, "frequencies", "step {step}: count_frequencies on a reused SetOperations: got {:?} want {:?}", g, e); Ok(()) }
+    }
+}
+
+fn run_gaps(ctx: &mut Ctx) {
+    use gapx::*;
+    // -- SimdComparator::compare_i32_slices / SimdOperations::parallel_compare_i32 == element-wise Ord::cmp
+    for idx in 0..ctx.n(400, 6000) as u64 { ctx.case("simd/compare", "gap_pairs_i32", idx, |c| {
+        let n = pick_n(c, &[8, 16, 64], 300); let left = gap_i32s(c, n); let mut right = gap_i32s(c, n);
+        let eqp = c.rng.below(4); for i in 0..n { if c.rng.below(4) < eqp { right[i] = left[i]; } else if c.rng.chance(1, 8) { right[i] = left[i].wrapping_add(1); } }
+        let cfg = gap_simd_cfg(c); c.input_str("cfg", &format!("{cfg:?}")); c.input("left", &gap_le32(&left)); c.input("right", &gap_le32(&right)); c.set_nontrivial(n >= 1);
+        let e: Vec<Ordering> = left.iter().zip(right.iter()).map(|(a, b)| a.cmp(b)).collect();
+        let cmp = SimdComparator::with_config(cfg.clone());
+        let avail = cmp.simd_available(); c.note(if avail && n >= cfg.min_vector_size { "simd_path" } else { "scalar_path" }, 1);
+        if cmp.config().min_vector_size != cfg.min_vector_size || cmp.config().use_avx2 != cfg.use_avx2 { c.note("config_getter_differs", 1); }
+        let g = match nopanic("compare_i32_slices", || cmp.compare_i32_slices(&left, &right))? { Ok(g) => g, Err(e) => return Err(bad("compare_err", format!("compare_i32_slices on equal-length slices (n={n}) returned Err: {e}"))) };
+        c.ev(n.max(1) as u64);
+        ensure!(g.len() == n, "compare_len", "compare_i32_slices returned {} orderings for {n} pairs", g.len());
+        if let Some(i) = (0..n).find(|&i| g[i] != e[i]) { return fail("compare_mismatch", format!("compare_i32_slices[{i}]: {} vs {} reported {:?}, is {:?} (n={n}, cfg {cfg:?})", left[i], right[i], g[i], e[i])); }
+        let pairs: Vec<(i32, i32)> = left.iter().copied().zip(right.iter().copied()).collect();
+        let g2 = nopanic("parallel_compare_i32", || SimdOperations::parallel_compare_i32(&pairs))?;
+        ensure!(g2.len() == n, "compare_len", "parallel_compare_i32 returned {} orderings for {n} pairs", g2.len());
+        if let Some(i) = (0..n).find(|&i| g2[i] != e[i]) { return fail("compare_mismatch", format!("parallel_compare_i32[{i}]: {} vs {} reported {:?}, is {:?} (n={n})", left[i], right[i], g2[i], e[i])); }
+        // unequal lengths: the documented refusal; what an Ok would contain is not specified
+        if n > 0 { match nopanic("compare_i32_slices(unequal lengths)", || cmp.compare_i32_slices(&left[..n - 1], &right))? { Err(_) => c.note("unequal_len_refused", 1), Ok(_) => c.note("unequal_len_accepted", 1) } }
+        Ok(()) }); }
+    // -- SimdComparator::find_min_i32 / SimdOperations::find_multiple_mins: the selection primitive of the merges
+    for idx in 0..ctx.n(400, 6000) as u64 { ctx.case("simd/find_min", "gap_values_i32", idx, |c| {
+        let n = pick_n(c, &[8, 16, 64], 300); let v = gap_i32s(c, n); let cfg = gap_simd_cfg(c);
+        c.input_str("cfg", &format!("{cfg:?}")); c.input("values", &gap_le32(&v)); c.set_nontrivial(n >= 2);
+        let cmp = SimdComparator::with_config(cfg);
+        let g = nopanic("find_min_i32", || cmp.find_min_i32(&v))?; gap_check_min(c, "find_min_i32", &v, g)?;
+        // the same values cut into k arrays (some empty)
+        let k = c.rng.usize_below(7); let mut cuts: Vec<usize> = (0..k.saturating_sub(1)).map(|_| c.rng.usize_below(n + 1)).collect(); cuts.sort(); c.hash_more(&(k as u64).to_le_bytes());
+        let mut arrs: Vec<&[i32]> = Vec::new(); if k > 0 { let mut lo = 0; for &hi in cuts.iter().chain(std::iter::once(&n)) { arrs.push(&v[lo..hi]); lo = hi; } }
+        let gm = nopanic("find_multiple_mins", || SimdOperations::find_multiple_mins(&arrs))?;
+        ensure!(gm.len() == arrs.len(), "min_len", "find_multiple_mins returned {} results for {} arrays", gm.len(), arrs.len());
+        for (a, g) in arrs.iter().zip(gm.into_iter()) { gap_check_min(c, "find_multiple_mins", a, g)?; }
+        Ok(()) }); }
+    // -- VectorSource::remaining + merging sources that were partly consumed; MultiWayMerge::new()
+    for idx in 0..ctx.n(300, 5000) as u64 { ctx.case("mwm/partial_sources", "gap_remaining", idx, |c| {
+        let k = pick_k(c); let (rs, _) = runs_case(c, k, 40, 64);
+        let mut src: Vec<VectorSource<u64>> = rs.iter().cloned().map(VectorSource::new).collect(); let mut rest: Vec<u64> = Vec::new();
+        for (w, s) in src.iter_mut().enumerate() { let r = &rs[w];
+            ensure!(s.remaining() == &r[..], "source_remaining", "fresh VectorSource {w}: remaining() = {} want {}", short(s.remaining()), short(r));
+            let j = match c.rng.below(4) { 0 => 0, 1 => r.len(), _ => c.rng.usize_below(r.len() + 1) }; c.hash_more(&(j as u64).to_le_bytes());
+            for i in 0..j { let p = s.peek().copied(); let x = nopanic("VectorSource::next", || MergeSource::next(s))?; ensure!(p == Some(r[i]) && x == Some(r[i]), "source_next", "source {w} item {i}: peek {p:?} next {x:?} want {}", r[i]); }
+            c.ev(1 + j as u64);
+            ensure!(s.remaining() == &r[j..], "source_remaining", "source {w} after {j} next(): remaining() = {} want {}", short(s.remaining()), short(&r[j..]));
+            ensure!(MergeSource::is_empty(s) == (j == r.len()) && s.peek().copied() == r.get(j).copied(), "source_state", "source {w} after {j}/{} next(): is_empty {} peek {:?}", r.len(), MergeSource::is_empty(s), s.peek());
+            if s.remaining_hint() != Some(r.len() - j) { c.note("remaining_hint_differs", 1); }
+            rest.extend_from_slice(&r[j..]); }
+        rest.sort();
+        let mut m = match c.rng.below(3) { 0 => MultiWayMerge::new(), 1 => MultiWayMerge::default(), _ => MultiWayMerge::with_config(MultiWayMergeConfig { use_parallel: c.rng.bool(), buffer_size: *c.rng.pick(&[0usize, 1, 64]), max_merge_ways: *c.rng.pick(&[1usize, 2, 1024]), use_tournament_tree: c.rng.bool() }) };
+        let out: Vec<u64> = libm!("MultiWayMerge::merge(partly consumed sources)", m.merge(src));
+        if m.stats().items_processed != out.len() { c.note("stats_items_differs", 1); }
+        check_merge(c, "MultiWayMerge::merge of partly consumed sources", &rest, &out) }); }
+    // -- AdvancedRadixSort::new() (library defaults) and ::with_memory_pool (pool shared by two sorters), sorter reused
+    for idx in 0..ctx.n(150, 2400) as u64 { ctx.case("adv/ctor", "gap_new_and_shared_pool", idx, |c| {
+        let wide = c.rng.bool(); let fam = c.rng.below(NFAM as u64) as u32; let shared = idx % 3 == 2;
+        let n = if shared { pick_n(c, &[16, 100, 128], 3000) } else if idx % 3 == 0 { 19_990 + c.rng.usize_below(4000) } else { pick_n(c, &[100, 10_000], 22_000) };
+        let data = ints(c, fam, n, if wide { 64 } else { 32 }); let d2 = ints(c, fam, 1 + n / 3, if wide { 64 } else { 32 });
+        c.input_str("wide", &wide.to_string()); c.input_str("family", fam_name(fam)); c.input("data", &le64(&data)); c.input("data2", &le64(&d2)); c.set_nontrivial(n >= 2);
+        macro_rules! go { ($t:ty) => {{
+            let data: Vec<$t> = data.iter().map(|&x| x as $t).collect(); let d2: Vec<$t> = d2.iter().map(|&x| x as $t).collect();
+            let ch = RadixData::analyze_integers(&data); c.note(if ch.is_nearly_sorted { "analysis_nearly_sorted" } else { "analysis_unsorted" }, 1); if ch.size != n { c.note("analysis_size_differs", 1); }
+            if shared {
+                let (par, simd) = (c.rng.bool(), c.rng.bool()); let mut cfg = adv_cfg(c, None, true, par, simd); cfg.use_secure_memory = true; c.input_str("cfg", &format!("{cfg:?}"));
+                let pool = match nopanic("SecureMemoryPool::new", || SecureMemoryPool::new(if c.rng.bool() { SecurePoolConfig::small_secure() } else { SecurePoolConfig::medium_secure() }))? { Ok(p) => p, Err(_) => { c.note("pool_refused", 1); return Ok(()); } };
+                let mut s1 = nopanic("with_memory_pool", || AdvancedRadixSort::<$t>::with_memory_pool(cfg.clone(), pool.clone()))?; let mut s2 = nopanic("with_memory_pool", || AdvancedRadixSort::<$t>::with_memory_pool(cfg.clone(), pool.clone()))?;
+                let _ = s1.estimate_memory(n);
+                let mut a = data.clone(); lib!("AdvancedRadixSort::sort (shared pool, sorter 1)", s1.sort(&mut a)); check_perm(c, "with_memory_pool sorter 1", &data, &a)?;
+                let mut b = d2.clone(); lib!("AdvancedRadixSort::sort (shared pool, sorter 2)", s2.sort(&mut b)); check_perm(c, "with_memory_pool sorter 2", &d2, &b)?;
+                let mut a2 = d2.clone(); lib!("AdvancedRadixSort::sort (shared pool, sorter 1 again)", s1.sort(&mut a2)); check_perm(c, "with_memory_pool sorter 1, second sort", &d2, &a2)
+            } else {
+                c.note(if n >= 20_000 { "default_parallel" } else if n <= 100 { "default_insertion" } else { "default_sequential" }, 1);
+                let mut s = match nopanic("AdvancedRadixSort::new", || AdvancedRadixSort::<$t>::new())? { Ok(s) => s, Err(_) => { c.note("ctor_refused", 1); return Ok(()); } };
+                let _ = s.estimate_memory(n);
+                let mut a = data.clone(); lib!("AdvancedRadixSort::new().sort", s.sort(&mut a)); if n > 0 { c.note(&format!("used:{:?}", s.stats().strategy_used), 1); } check_perm(c, "AdvancedRadixSort::new().sort", &data, &a)?;
+                let mut b = d2.clone(); lib!("AdvancedRadixSort::new().sort (2nd)", s.sort(&mut b)); check_perm(c, "AdvancedRadixSort::new(), second sort on the same sorter", &d2, &b)
+            } }} }
+        if wide { go!(u64) } else { go!(u32) } }); }
+    // -- RadixString::as_slice: the sorted wrappers still denote the strings that were put in
+    for idx in 0..ctx.n(100, 1600) as u64 { ctx.case("adv/str_ctor", "gap_as_slice", idx, |c| {
+        let fam = c.rng.below(NSFAM as u64) as u32; let n = pick_n(c, &[100], 600); let owned = strings(c, fam, n);
+        c.input_str("family", sfam_name(fam)); c.input("strings", &ser_strings(&owned)); c.set_nontrivial(n >= 2);
+        let mut by_key: BTreeMap<u64, &Vec<u8>> = BTreeMap::new();
+        for s in &owned { let k = RadixString::new(s).extract_key(); if let Some(o) = by_key.get(&k) { if *o != s { c.tag("str_same_key8"); break; } } else { by_key.insert(k, s); } }
+        let ch = RadixData::analyze_strings(&owned); c.note(if ch.is_nearly_sorted { "analysis_nearly_sorted" } else { "analysis_unsorted" }, 1);
+        let data: Vec<RadixString> = owned.iter().map(|s| RadixString::new(s)).collect();
+        if let Some(i) = (0..n).find(|&i| data[i].as_slice() != &owned[i][..]) { return fail("as_slice_roundtrip", format!("RadixString::new(s).as_slice() != s for s = {:?}", owned[i])); }
+        let mut s = match nopanic("AdvancedRadixSort::new", || AdvancedRadixSort::<RadixString>::new())? { Ok(s) => s, Err(_) => { c.note("ctor_refused", 1); return Ok(()); } };
+        let mut d = data.clone(); lib!("AdvancedRadixSort::<RadixString>::new().sort", s.sort(&mut d)); if n > 0 { c.note(&format!("used:{:?}", s.stats().strategy_used), 1); }
+        let out: Vec<Vec<u8>> = d.iter().map(|r| r.as_slice().to_vec()).collect();
+        check_perm(c, "AdvancedRadixSort::<RadixString>::new().sort (read back through as_slice)", &owned, &out) }); }
+    // -- CacheObliviousSort::new() / Default / Algorithm::execute with the detected cache hierarchy; sorter reused
+    for idx in 0..ctx.n(90, 1500) as u64 { ctx.case("cosort/ctor", "gap_new_default_execute", idx, |c| {
+        let ty = idx % 3; let esz = [8usize, 16, 4][ty as usize]; let fam = c.rng.below(NFAM as u64) as u32;
+        let mut n = pick_n(c, &[16, 1024, 4096, 6144, 8192], 20_000);
+        let cfg = CacheObliviousConfig::default(); let h = cfg.cache_hierarchy.clone();
+        // stay clear of the known unbounded funnel recursion (own target cosort/funnel_k1): configuration-only predicate
+        let risky = |n: usize| { let nb = n * 8; let rf = (nb > h.l1_size && nb <= h.l3_size) || (nb > h.l3_size && n * esz > h.l2_size); rf && funnel_k1(n, funnel_width(&cfg, n), cfg.small_threshold) };
+        while risky(n) { n = n * 7 / 8; }
+        let keys = ints(c, fam, n, if ty == 2 { 32 } else { 64 }); let k2 = ints(c, fam, 1 + n / 2, if ty == 2 { 32 } else { 64 });
+        c.input_str("type", ["u64", "(u64,u64)", "i32 via execute"][ty as usize]); c.input_str("family", fam_name(fam)); c.input("data", &le64(&keys)); c.set_nontrivial(n >= 2);
+        let sel = AdaptiveAlgorithmSelector::new(&cfg); c.note(&format!("selector:{:?}", sel.select_strategy(n, &h)), 1);
+        let dc = sel.analyze_data(&keys); if dc.size != n { c.note("analysis_size_differs", 1); }
+        match ty {
+            0 => { let mut s = CacheObliviousSort::new(); let mut d = keys.clone(); lib!("CacheObliviousSort::new().sort", s.sort(&mut d)); check_perm(c, "CacheObliviousSort::new().sort", &keys, &d)?;
+                if !risky(k2.len()) { let mut d2 = k2.clone(); lib!("CacheObliviousSort::new().sort (2nd)", s.sort(&mut d2)); check_perm(c, "CacheObliviousSort::new(), second sort on the same sorter", &k2, &d2)?; } Ok(()) }
+            1 => { let data: Vec<(u64, u64)> = keys.iter().enumerate().map(|(i, &k)| (k, i as u64)).collect(); let mut s = CacheObliviousSort::default(); let mut d = data.clone(); lib!("CacheObliviousSort::default().sort", s.sort(&mut d)); check_perm(c, "CacheObliviousSort::default().sort", &data, &d) }
+            _ => { let data: Vec<i32> = keys.iter().map(|&x| x as u32 as i32).collect(); let out = lib!("Algorithm::execute", CacheObliviousSort::new().execute(&cfg, data.clone())); check_perm(c, "CacheObliviousSort execute", &data, &out) }
+        } }); }
+    // -- EnhancedLoserTree::num_ways / config, merge_all into a sink that already holds elements; TournamentNode getters (notes)
+    for idx in 0..ctx.n(240, 4000) as u64 { ctx.case("losertree/ways", "gap_num_ways_merge_all", idx, |c| {
+        let k = pick_k(c); let (rs, e) = runs_case(c, k, 30, 64);
+        let cfg = LoserTreeConfig { initial_capacity: *c.rng.pick(&[0usize, 1, 64]), use_secure_memory: c.rng.chance(1, 4), stable_sort: c.rng.bool(), cache_optimized: c.rng.bool(), use_simd: c.rng.bool(), prefetch_distance: c.rng.usize_below(4), alignment: 64 };
+        c.input_str("cfg", &format!("{cfg:?}")); let mut t = EnhancedLoserTree::<u64>::new(cfg.clone());
+        ensure!(t.num_ways() == 0, "num_ways", "num_ways() = {} on a new tree", t.num_ways());
+        for (i, r) in rs.iter().enumerate() { libm!("add_way", t.add_way(r.clone().into_iter())); c.ev(1); ensure!(t.num_ways() == i + 1, "num_ways", "num_ways() = {} after {} add_way calls", t.num_ways(), i + 1); }
+        if t.config().stable_sort != cfg.stable_sort || t.config().initial_capacity != cfg.initial_capacity { c.note("config_getter_differs", 1); }
+        let pl = c.rng.usize_below(4); let prefix: Vec<u64> = (0..pl).map(|_| c.rng.next()).collect(); c.input("sink_prefix", &le64(&prefix));
+        let mut sink: std::collections::VecDeque<u64> = prefix.iter().copied().collect();
+        libm!("merge_all", t.merge_all(&mut sink)); let out: Vec<u64> = sink.into_iter().collect();
+        ensure!(out.len() >= pl && out[..pl] == prefix[..], "merge_all_sink_clobbered", "merge_all into a sink holding {} did not append: sink now {}", short(&prefix), short(&out));
+        if t.num_ways() != k { c.note("num_ways_changed_by_merge", 1); }
+        let (a, b) = (c.rng.next() as u32 as usize, c.rng.next() as u32 as usize); let nd = TournamentNode::new(a, b); c.note(if nd.loser_way() == a && nd.sequence_index() == b { "node_getters_roundtrip" } else { "node_getters_differ" }, 1);
+        check_merge(c, "EnhancedLoserTree::merge_all (appended part)", &e, &out[pl..]) }); }
+    // -- one SetOperations object used for a sequence of operations, reset_stats() in between
+    for (strict, g) in [(true, "gap_reuse_strict_sets"), (false, "gap_reuse_with_dups")] { for idx in 0..ctx.n(200, 3000) as u64 { ctx.case("setopsk/reuse", g, idx, |c| {
+        let cfg = SetOperationsConfig { use_bit_mask_optimization: c.rng.bool(), bit_mask_threshold: *c.rng.pick(&[0usize, 32, 32]), count_frequencies: c.rng.bool(), use_simd: c.rng.bool() };
+        c.input_str("cfg", &format!("{cfg:?}")); let mut so = SetOperations::with_config(cfg); let steps = 2 + c.rng.usize_below(5); let mut ops = String::new();
+        for step in 0..steps {
+            let k = kway_k(c).min(32); let ws = kway_inputs(c, k, strict); let op = c.rng.below(4); ops.push(b"IUFC"[op as usize] as char);
+            gap_kway_apply(c, &mut so, op, &ws, step)?;
+            if c.rng.bool() { ops.push('r'); nopanic("reset_stats", || so.reset_stats())?; let st = so.stats(); if st.ways_processed != 0 || st.elements_examined != 0 || st.output_elements != 0 || st.used_bit_mask { c.note("stats_not_zero_after_reset", 1); } }
+        }
+        c.input_str("ops", &ops); c.set_nontrivial(true); Ok(()) }); } }
+    // -- ExternalSort::external_sort() (trait default configuration) and the ExternalSortStats helpers (notes only)
+    for idx in 0..ctx.n(60, 800) as u64 { ctx.case("extsort/trait_default", "gap_external_sort", idx, |c| {
+        let fam = c.rng.below(NFAM as u64) as u32; let n = pick_n(c, &[2, 16], 2000); let data = ints(c, fam, n, 64); c.input_str("family", fam_name(fam)); c.input("data", &le64(&data)); c.set_nontrivial(n >= 2);
+        let mut d = data.clone(); lib!("Vec::external_sort", d.external_sort()); check_perm(c, "Vec::external_sort", &data, &d)?;
+        // a small spilling sort, then the derived statistics (their values are estimates: recorded, not judged)
+        let dir = tmpdir().map_err(|e| bad("__inconclusive", format!("tempdir: {e}")))?; let el = ext_elems(c); let cfg = ext_cfg(c, dir.path(), 8, el); let m = n.min(200);
+        let mut s = ReplaceSelectSort::<u64>::new(cfg); let out = lib!("ReplaceSelectSort::sort", s.sort(data[..m].to_vec())); check_perm(c, "ReplaceSelectSort::sort", &data[..m], &out)?;
+        let (arl, ioe) = nopanic("ExternalSortStats helpers", || (s.stats().average_run_length(), s.stats().io_efficiency()))?;
+        c.note(if arl.is_finite() && ioe.is_finite() { "stats_helpers_finite" } else { "stats_helpers_not_finite" }, 1); Ok(()) }); }
+    // -- VanEmdeBoas (a layout container, not a sort: reached for the memory-safety monitors, values recorded as notes)
+    for idx in 0..ctx.n(20, 200) as u64 { ctx.case("veb/get", "gap_logical_index", idx, |c| {
+        let n = pick_n(c, &[64, 65], 500); let data: Vec<u64> = (0..n).map(|_| c.rng.next()).collect(); c.input("data", &le64(&data)); c.set_nontrivial(n >= 1);
+        let h = CacheObliviousConfig::default().cache_hierarchy; let feats = CacheObliviousConfig::default().cpu_features;
+        let v = if c.rng.bool() { VanEmdeBoas::new(data.clone(), h) } else { VanEmdeBoas::with_cpu_features(data.clone(), h, feats) };
+        let mut diff = 0u64; for i in 0..n + 3 { match crate::ctx::catch(|| v.get(i).copied()) { Ok(g) => if g != data.get(i).copied() { diff += 1; }, Err(_) => { c.note("get_panicked", 1); break; } } }
+        c.note(if diff == 0 { "get_matches_logical_index" } else { "get_differs_from_logical_index" }, 1);
+        let f = RadixCpuFeatures::detect(); c.note(if f.has_avx512() { "avx512" } else { "no_avx512" }, 1); Ok(()) }); }
+}
+
 pub fn run(ctx: &mut Ctx) {
     run_radix(ctx);
     run_cosort(ctx);
@@ -761,6 +964,7 @@ pub fn run(ctx: &mut Ctx) {
     run_merges(ctx);
     run_setops(ctx);
     run_huge(ctx);
+    run_gaps(ctx);
     run_bytes_deep(ctx);
     run_cosort_k1(ctx);
 }
